@@ -234,13 +234,25 @@ def oracle(ctx, scale):
             from scipy import signal as sps
 
             ms2 = MultiSetup_PreGER(fs=S.fs, ref_ind=[list(r) for r in ref_ind], datasets=[d.copy() for d in datasets])
-            step = ctx.rng.choice(["detrend", "decimate"])
+            step = ctx.rng.choice(["detrend", "decimate", "detrend+decimate", "decimate+rollback"])
             if step == "detrend":
                 ms2.detrend_data()
                 proc = [sps.detrend(d, axis=0) for d in datasets]
-            else:
+            elif step == "decimate":
                 ms2.decimate_data(q=2)
                 proc = [sps.decimate(d, 2, axis=0) for d in datasets]
+            elif step == "detrend+decimate":
+                ms2.detrend_data()
+                ms2.decimate_data(q=2)
+                proc = [sps.decimate(sps.detrend(d, axis=0), 2, axis=0) for d in datasets]
+            else:
+                ms2.decimate_data(q=2)
+                ms2.rollback()
+                proc = [d for d in datasets]
+                ctx.oracle_cases += 1
+                if ms2.fs != S.fs or abs(ms2.dt - 1 / S.fs) > 1e-15:
+                    ctx.violation("rollback-sampling", f"MultiSetup_PreGER.rollback after decimate_data: fs={ms2.fs}, dt={ms2.dt}, expected {S.fs}, {1 / S.fs}", inp | {"step": step})
+                    return
             for i, d in enumerate(proc):
                 want_ref = d[:, ref_ind[i]].T
                 want_mov = d[:, [c for c in range(d.shape[1]) if c not in ref_ind[i]]].T
